@@ -423,12 +423,20 @@ class _PopenOK:
 
     def __init__(self, *a, **k):
         self.returncode = 0
+        # fault: the job script fails its syntax check, i.e. job preparation
+        # fails before any submission command is issued (rate 'job_prep_fail',
+        # zero unless a driver asks for it)
+        w = Seams.world
+        if w is not None and w.sim.flip('job_prep_fail'):
+            w.sim.fault('job_prep_fail')
+            w.sim.log('job preparation failed (script check)')
+            self.returncode = 1
 
     def communicate(self, *a, **k):
-        return (b'', b'')
+        return ('', 'simulated syntax error' if self.returncode else '')
 
     def wait(self, *a, **k):
-        return 0
+        return self.returncode
 
     def __enter__(self):
         return self
